@@ -40,6 +40,22 @@ theorem table_sound_partial :
 theorem open_ticket_undeclared : ("open_ticket", true, false) ∈ Gen.Actions.actionResults := by
   decide
 
+/-- **Categories**: every category an action's code saves a result with (the constants passed to
+`saveResult`, the values of the status table behind `saveWebhookResult`) is among the categories
+its `Results` method declares to inspection, or the declaration leaves the categories open —
+regenerated from flows/actions on every run; `open_ticket` declares nothing (F-C20-a). -/
+theorem categories_declared_partial :
+    Gen.Actions.actionCategories.all (fun r =>
+      r.2.2.contains "*" || r.2.1.all (fun c => r.2.2.contains c) || r.1 == "open_ticket") = true := by
+  decide
+
+/-- the table is not empty: the webhook-like actions and the classifier are in it with fixed categories -/
+theorem categories_table_covers :
+    (Gen.Actions.actionCategories.map (·.1)) =
+      ["call_classifier", "call_resthook", "call_webhook", "open_ticket", "set_run_result", "transfer_airtime"] ∧
+    Gen.Actions.actionCategories.lookup "call_resthook" = some (["Failure", "Success"], ["Failure", "Success"]) := by
+  decide
+
 /-- the registered action and router types are the ones the models know -/
 theorem registries_as_modelled :
     Gen.Actions.actionResults.map (·.1) =
